@@ -40,8 +40,10 @@ def make_policy(spec: dict, seed: int, replay: Optional[dict]) -> core.Policy:
         base = core.PCTPolicy(seed, spec.get("depth", 3), spec.get("horizon", 2000))
     else:
         base = core.Policy()
-    h = spec.get("hold")
-    if h:
+    holds = list(spec.get("holds", []))
+    if spec.get("hold"):
+        holds.append(spec["hold"])
+    for h in holds:
         base = core.HoldPolicy(base, h["actor"], h.get("op"), h.get("cls"), h.get("nth", 1),
                                h.get("until"), h.get("until_ops", 1))
     return base
@@ -313,7 +315,12 @@ def generic_shrink(plan: dict):
         p = copy.deepcopy(plan)
         del p["faults"][j]
         yield p
-    if plan.get("policy", {}).get("kind") not in (None, "default") and not plan.get("policy", {}).get("hold"):
+    for j in range(len(plan.get("policy", {}).get("holds", []))):
+        p = copy.deepcopy(plan)
+        del p["policy"]["holds"][j]
+        yield p
+    if plan.get("policy", {}).get("kind") not in (None, "default") and not plan.get("policy", {}).get("hold") \
+            and not plan.get("policy", {}).get("holds"):
         p = copy.deepcopy(plan)
         p["policy"] = {"kind": "default"}
         yield p
